@@ -72,8 +72,19 @@ def sanitize(s):
     return s
 
 
+PLACEHOLDER_KEYS = list('abcdefghijklmnopqrstuvwxyz0123456789') + ['name', 'table', 'col', 'ref', 'comment', 'c1', 'c!r', '0:>4', '', 'c}{c']
+
+
+def placeholder_text():
+    """comment text that looks like a template placeholder of some formatting mechanism (the renderers build their output
+    with templates; no comment text may ever be taken for one)"""
+    key = st.sampled_from(PLACEHOLDER_KEYS)
+    shape = st.sampled_from(['{%s}', 'see {%s} and {%s}', '%%(%s)s', '${%s}', '$%s', '{{%s}}', '\\g<%s>', '{%s', '%s}'])
+    return st.tuples(shape, key).map(lambda sk: sk[0].replace('%s', sk[1]).replace('%%', '%'))
+
+
 def comment_strategy():
-    content = st.sampled_from(CONTENTS)
+    content = st.one_of(st.sampled_from(CONTENTS), st.sampled_from(CONTENTS), placeholder_text())
     slashes = st.lists(content, min_size=1, max_size=3).map(lambda ls: ('//', ls))
     block = st.lists(content.filter(lambda c: '*/' not in c), min_size=1, max_size=3).map(lambda ls: ('/*', ls))
     return st.one_of(slashes, slashes, block)
@@ -416,6 +427,47 @@ def eval_capture(c, ctx: Ctx = None):
     return viols
 
 
+PLACEHOLDER_SHAPES = ['{%s}', 'see {%s} and {%s}', '%%(%s)s', '${%s}', '$%s', '{{%s}}', '\\g<%s>', '{%s', '%s}']
+
+
+def placeholder_texts():
+    return [sh.replace('%s', k).replace('%%', '%') for sh in PLACEHOLDER_SHAPES for k in PLACEHOLDER_KEYS]
+
+
+def placeholder_doc():
+    """a fixed document with every commentable kind of element (named short, unnamed block, inline and many-to-many
+    references included)"""
+    from ..model import AColumn, AEnum, AEnumItem, AGroup, AIndex, AProject, ARef, ASchema, ATable
+    users = ATable('public', 'users', [AColumn('id', ('plain', 'int'), pk=True), AColumn('kind', ('enum', 'public', 'kinds')),
+                                       AColumn('org', ('plain', 'int'))],
+                   indexes=[AIndex([('col', 'id'), ('col', 'org')], unique=True, name='ix')], note='a note')
+    orgs = ATable('s1', 'orgs', [AColumn('id', ('plain', 'int'), pk=True), AColumn('owner', ('plain', 'int'))])
+    users.columns[2].refs = [ARef('>', users.key, ['org'], orgs.key, ['id'], inline=True)]
+    refs = [ARef('<', users.key, ['id'], orgs.key, ['owner'], name='owned', on_delete='cascade'),
+            ARef('-', orgs.key, ['owner'], users.key, ['id']),
+            ARef('<>', users.key, ['id'], orgs.key, ['id'])]
+    return ASchema(tables=[users, orgs], enums=[AEnum('public', 'kinds', [AEnumItem('a'), AEnumItem('b')])], refs=refs,
+                   groups=[AGroup('g', [users.key])], project=AProject('p', [('k', 'v')]))
+
+
+def placeholder_case(text, trailing):
+    s = placeholder_doc()
+    out, lines = write(s, Style())
+    s2 = copy.deepcopy(s)
+    above, trail = {}, {}
+    for path, kind, first, last in capture_targets(s, lines):
+        if kind == 'ref_body' and any(p == path and f is not None for p, _, f, _ in capture_targets(s, lines) if _ != 'ref_body'):
+            continue        # a block Ref takes its comment above the opening line
+        if first is not None and not (trailing and last is not None):
+            above.setdefault(first, []).append(f'{lines[first].indent}// {text}')
+        elif last is not None:
+            trail[last] = ' // ' + text
+        else:
+            continue
+        set_comment(s2, path, text)
+    return s, s2, out, render_commented(lines, above, trail), []
+
+
 def replay(case):
     if case.get('arm') == 'inert':
         props = bool(case.get('allow_properties'))
@@ -430,5 +482,12 @@ def shard(ctx: Ctx):
     sizes = gen.Sizes(tables=3, columns=3, indexes=3, enums=2, items=3, refs=6, groups=1, stickies=1, props=1)
     feats = frozenset((c01.strict_features() & c02.strict_features()) - {'multiline_settings_note'})
     n = 70 if quick else 700
+    # exhaustive: every placeholder-like text (template keys x template syntaxes) as the comment of every commentable element
+    texts = placeholder_texts()
+    for k, ptxt in enumerate(texts):
+        if k % ctx.nshards == ctx.shard:
+            for trailing in (False, True):
+                ctx.add(eval_capture(placeholder_case(ptxt, trailing), ctx))
+    ctx.exhaustive_arms.append(f'{len(texts)} placeholder-like comment texts x (above, trailing) on every commentable element of a fixed document')
     hyp_run(ctx, 'inert', inert_cases(feats, sizes), lambda c: eval_inert(c, ctx), n)
     hyp_run(ctx, 'capture', capture_cases(feats, sizes), lambda c: eval_capture(c, ctx), n)
